@@ -110,9 +110,25 @@ func MapKeys[M ~map[K]V, K comparable, V any](site string, m M) []K {
 		out[i] = keys[j]
 	}
 	if s.cfg.PermuteMaps {
-		for i := 0; i < len(out)-1; i++ {
-			j := i + s.choose("map", len(out)-i, 0)
-			out[i], out[j] = out[j], out[i]
+		if len(out) <= 12 {
+			for i := 0; i < len(out)-1; i++ {
+				j := i + s.choose("map", len(out)-i, 0)
+				out[i], out[j] = out[j], out[i]
+			}
+		} else {
+			// large maps: a full permutation would cost one recorded decision per
+			// element; a rotation and an optional reversal still vary the order
+			// of every pair of keys across runs
+			r := s.choose("maprot", len(out), 0)
+			rot := make([]K, 0, len(out))
+			rot = append(rot, out[r:]...)
+			rot = append(rot, out[:r]...)
+			if s.choose("maprev", 2, 0) == 1 {
+				for i, j := 0, len(rot)-1; i < j; i, j = i+1, j-1 {
+					rot[i], rot[j] = rot[j], rot[i]
+				}
+			}
+			out = rot
 		}
 	}
 	return out
